@@ -416,4 +416,11 @@ pub fn grid(opts: &Opts, w: &mut dyn Write) {
     let mut it = e.clone().into_iter().flat_map(|x| { let e = e.clone(); e.into_iter().map(move |y| ([0x9cb0 ^ ((y as u32) << 4 & 0xf0), x as u32, y as u32, x as u32 ^ 0x00ff, 0xd000], 0x77u8)) });
     grid_run(&code, "rr*rr", &mut it, w);
   }
+  // N. long straight-line blocks: the translated block must be the whole run up to the terminator, as the interpreter's is
+  for n in [1000usize, 1025, 2100] {
+    if !mine() { continue; }
+    let code = vec![0x04u8; n];   // INC B x n
+    let mut it = EDGE8.iter().map(|v| with_r8(0, *v, 0x12, 0x30));
+    grid_run(&code, "long", &mut it, w);
+  }
 }
